@@ -147,9 +147,16 @@ class Uninitialised(Unsupported):
 
 def arr_id(o):
     """an array value without its element type: size and ndim belong to the sequence, whatever it was converted to"""
-    if isinstance(o, tuple) and len(o) == 4 and o[0] == "obj" and o[1] == "asarray":
+    if is_asarray(o):
         return o[:3]
     return o
+
+
+def is_asarray(o):
+    """('obj', 'asarray', x, dtype | null, layout): the array made of x.  layout = ('lay', entry ...): what the conversions on the way asked of
+    the memory layout, in order - ('req', requirement word of PyArray_FromAny) | ('contig', ('str', name of a call that returns a
+    C-contiguous array))"""
+    return isinstance(o, tuple) and len(o) == 5 and o[0] == "obj" and o[1] == "asarray"
 
 
 F64_NAMES = ("float", "np.float64", "np.double", "numpy.float64", "numpy.double", "np.float_", "NPY_DOUBLE", "NPY_FLOAT64", "float64", "f8", "d", "double", "<f8", "=f8")
@@ -664,7 +671,7 @@ class Exec:
     def attr(self, o, name):
         if name == "dtype" and o[0] == "ptr" and o[2] == ZERO:
             return ("obj", "dtype_of", ("str", o[1]))
-        if name == "dtype" and o[0] == "obj" and o[1] == "asarray":
+        if name == "dtype" and is_asarray(o):
             return o[3]
         if name in ("size", "shape") and o[0] == "ptr" and o[2] == ZERO and self.lengths.get(o[1]) is not None and self.allocs.get(o[1], {}).get("kind") != "out":
             n = aff_ir(self.lengths[o[1]])
@@ -678,12 +685,13 @@ class Exec:
             return ("obj", "shape", o)
         return ("opq", "." + name, (o,), "any")
 
-    def _asarray(self, x, dt=None):
-        """the array made of x; element type dt (a dtype value) when the call converts, else whatever x has.  ('obj', 'asarray', x, dtype | null)"""
-        inner = ("null",)
-        if x[0] == "obj" and x[1] == "asarray":
-            x, inner = x[2], x[3]
-        return ("obj", "asarray", x, dt if dt is not None and dt != ("null",) else inner)
+    def _asarray(self, x, dt=None, lay=()):
+        """the array made of x; element type dt (a dtype value) when the call converts, else whatever x has; `lay`: what this conversion asks of
+        the layout (see is_asarray).  ('obj', 'asarray', x, dtype | null, layout)"""
+        inner, ilay = ("null",), ("lay",)
+        if is_asarray(x):
+            x, inner, ilay = x[2], x[3], x[4]
+        return ("obj", "asarray", x, dt if dt is not None and dt != ("null",) else inner, tuple(ilay) + tuple(lay))
 
     def _flat(self, b, r, c):
         if b[0] != "ptr" or b[1] not in self.allocs or not self.allocs[b[1]].get("cols"):
@@ -947,15 +955,24 @@ class Exec:
                     p.env[o[1]] = ("opq", "arg", (("num", Fraction(i)),), "any")
             return ("num", Fraction(1))
         if name in ("PyArray_FromAny", "PyArray_CheckFromAny") and args:
-            return self._asarray(args[0], args[1] if len(args) > 1 else None)          # (op, descr, ...): PyArray_FROM_OTF and friends expand to this
+            # (op, descr, min_depth, max_depth, requirements, context): PyArray_FROM_OTF and friends expand to this
+            return self._asarray(args[0], args[1] if len(args) > 1 else None, (("req", args[4]),) if len(args) > 4 else ())
         if name in ("PyArray_FROM_OTF", "PyArray_FROM_OF", "PyArray_ContiguousFromAny") and args:
-            return self._asarray(args[0], ("obj", "descr", args[1]) if name != "PyArray_FROM_OF" and len(args) > 1 else None)
+            lay = (("contig", ("str", name)),) if name == "PyArray_ContiguousFromAny" else (("req", args[-1]),) if len(args) == (3 if name == "PyArray_FROM_OTF" else 2) else ()
+            return self._asarray(args[0], ("obj", "descr", args[1]) if name != "PyArray_FROM_OF" and len(args) > 1 else None, lay)
+        if name == "PyArray_FromArray" and len(args) == 3 and is_asarray(args[0]):
+            return self._asarray(args[0], args[1], (("req", args[2]),))          # (array, descr | NULL, requirements)
+        if name == "PyArray_NewCopy" and len(args) == 2 and is_asarray(args[0]):
+            # a fresh copy of the array; of a vector it is C-contiguous in every order (KEEPORDER falls back to C order for ndim <= 1)
+            return self._asarray(args[0], None, (("contig", ("str", name)),))
+        if name in ("PyArray_CastToType", "PyArray_Cast") and len(args) >= 2 and is_asarray(args[0]):
+            return self._asarray(args[0], args[1] if name == "PyArray_CastToType" else ("obj", "descr", args[1]), (("contig", ("str", name)),))
         if name in ("np.atleast_1d", "np.asarray", "np.ascontiguousarray", "np.asanyarray", "np.array", "np.asfarray") and args:
             dt = kw.get("dtype", args[1] if len(args) > 1 and name != "np.atleast_1d" else None)
             if name == "np.asfarray" and dt is None:
                 dt = ("sym", "np.float64")
-            return self._asarray(args[0], dt)
-        if name == "method:astype" and args and args[0][0] == "obj" and args[0][1] == "asarray":
+            return self._asarray(args[0], dt, (("contig", ("str", name)),) if name == "np.ascontiguousarray" else ())
+        if name == "method:astype" and args and is_asarray(args[0]):
             dt = args[1] if len(args) > 1 else kw.get("dtype")
             if dt is None:
                 raise Unsupported("astype without a dtype")
